@@ -170,6 +170,8 @@ def validate(ctx, rows, convs=()):
 
 def step_sig(rows_by, f):
     """narrow signature of a failing predicate: predicate + the action at which it first became false in that trace"""
+    if f.get("info"):
+        return "%s:%s" % (f["what"], f["info"])
     return "%s@%s" % (f["what"], f["a"])
 
 
@@ -177,7 +179,7 @@ def first_fails(fails):
     """keep, per (trace, predicate), only the first failing step (later rows repeat the same bad state)"""
     best = {}
     for f in fails:
-        k = (f["sid"], f["what"])
+        k = (f["sid"], f["what"], f.get("info", ""))
         if k not in best or f["n"] < best[k]["n"]:
             best[k] = f
     return list(best.values())
@@ -229,6 +231,12 @@ def model_check(ctx, pid):
     return total_d, total_g, notes
 
 
+GEN2 = {   # additional generator configurations (same MaxLen)
+    "C11": [{"TagNames": '{"tag/a", "tag/b", "service/c"}', "ConvNames": "{}", "MaxCalls": 12, "MaxViews": 0, "Menu": '"subs"', "Invalid": "TRUE"}],
+    "C06": [{"TagNames": '{"tag/a", "tag/b", "mark/m"}', "ConvNames": "{}", "MaxCalls": 7, "MaxViews": 1, "Menu": '"subs"', "Invalid": "FALSE"}],
+}
+
+
 def run(ctx):
     pid = ctx.pid
     consts, maxlen = GEN[pid]
@@ -236,7 +244,12 @@ def run(ctx):
     nseeds, per = (6, 10) if ctx.quick() else (16, 60)
     if os.environ.get("VERIF_ONLY_REGRESS") == "1":   # ad-hoc debugging only
         nseeds = 0
-    hists = generate(ctx, consts, maxlen, per, maxlen + 5, [ctx.seed * 1000 + i for i in range(nseeds)]) if nseeds else []
+    hists = []
+    cfgs = [consts] + GEN2.get(pid, [])
+    for ci, c in enumerate(cfgs):
+        ns = max(2, nseeds // len(cfgs)) if ci else nseeds - (len(cfgs) - 1) * max(2, nseeds // len(cfgs)) if len(cfgs) > 1 else nseeds
+        if nseeds:
+            hists += generate(ctx, c, maxlen, per, maxlen + 5, [ctx.seed * 1000 + 100 * ci + i for i in range(ns)])
     scheds = [to_schedule("g%d" % i, h) for i, h in enumerate(hists)]
     scheds = load_regress([pid]) + scheds
     rows, crashes, outs = run_schedules(ctx, scheds, tag=pid)
@@ -270,7 +283,7 @@ def evaluate(ctx, pid, scheds, rows, crashes, states, trans, mc_notes, convs=())
     if infra_fail:
         raise Infra("observation failed: %s" % infra_fail[0])
     for f in mine:
-        ctx.violation(step_sig(None, f) + (":" + f["info"] if f.get("info") else ""),
+        ctx.violation(step_sig(None, f),
                       "%s fails in schedule %s at step %d (%s)" % (f["what"], f["sid"], f["n"], f["a"]),
                       {"schedule": by_sid.get(f["sid"]), "fail": f})
     for n in sorted({(n["what"], n["a"]) for n in nonconfs}):
